@@ -234,6 +234,8 @@ def gen_ph(rng, u, creator):
     while plid == eid:
         plid = id32()
     bmcid = rng.choice([u.next(), rng.randrange(1 << 32), rng.randrange(1, 5000)])
+    if rng.random() < 0.04:
+        bmcid = rng.choice([0, 0xFFFFFFFF])
     while bmcid in (eid, plid):
         bmcid = rng.randrange(1 << 32)
     return dict(ver=rng.randrange(256), sub=rng.randrange(256), comp=gen_compid(rng, creator),
@@ -378,7 +380,9 @@ def gen_callout(rng, u, must_fru=True):
     mru = None
     if rng.random() < 0.3:
         n = rng.choice([0, 1, 2, 3, 15, rng.randrange(16)])
-        mru = dict(ids=[(rng.choice([0x48, 0x4D, 0x4C, rng.randrange(1 << 32)]), rng.randrange(1 << 32)) for _ in range(n)],
+        pool_ids = [rng.randrange(1 << 32) for _ in range(max(1, n // 2))] if rng.random() < 0.4 else None   # repeated ids
+        mru = dict(ids=[(rng.choice([0x48, 0x4D, 0x4C, rng.randrange(1 << 32)]),
+                         rng.choice(pool_ids) if pool_ids else rng.randrange(1 << 32)) for _ in range(n)],
                    res=rng.choice([0, rng.randrange(1 << 32)]), hiflags=rng.choice([0, 0xF0, 0x10]))
     c = Callout(rng.randrange(256), rng.choice(list(tables.calloutPriorityValues) + [0, 0x20, 0x4E, 0xFF]), loc,
                 fru, pce, mru)
